@@ -25,6 +25,10 @@ CLAIMED = {
  "C14": core("DynamicRootSet is part of the collector model: per set object the slot table (occupied/vacant, refcount, free list) transcribed from Slots::add/inc/dec, the set's strong children DERIVED from its occupied slots, handles as records outside the arena that survive it.  TLC checks slot-table well-formedness (refcount = handles - 1, free list = vacant slots), 'slot reuse never retargets a live handle', keeps-alive and (through C02_Exact) collectability for every interleaving of new_set / stash / clone / drop / remove_set with collection increments up to the stated length; class witnesses (phase x colour of set and object x slot reuse x refcount) are replayed in the real crate, where after every operation every handle is presented to every set (contains, try_fetch, fetch) and the monitor checks acceptance, identity of the fetched object, harmless handle operations after the set or arena is gone, plus C01/C02 with stashed objects as roots."),
  "C20": {**core("TwoArenas.tla composes two instances of the collector model on disjoint variables (frame property C20_Frame checked by TLC) and enumerates their interleavings, including dropping one arena in every phase of the other; the harness runs them on two real arenas of one thread with different pacing, re-observes the OTHER arena after every operation, and the monitor requires (r1) that values are destructed/released only by operations on their own arena, (r2) that phase, count and debt of an arena are unchanged by anything that happened since its own last operation, and each arena's C01-C05 rules."), "category": "exploration",
          "note": "Model checking of the composition is vacuous by construction and is not what is claimed; the claim is trace validation of interleaved real executions drawn from the model (exploration). Foreign handles are covered under C14 (handles of one set presented to another set)."},
+ "C12": {"engine": "brand", "category": "exploration", "design_ref": "DESIGN.md 6 (C12)",
+   "text": "Brand.tla models where a value branded by arena A's callback can be (frame, root, handle; escapes: outer local, callback result, static, other thread, other arena's frame / root) and the moves the API offers between them, guarded by facts about the crate.  The facts are measured: both variance directions for 11 branded types (must be rejected; twin on &'a i32 accepted), Send and Sync for 10 types incl. Arena, Mutation, Finalization, MarkedArena, Metrics (must be rejected), and an adversarial corpus of 31 escape attempts through every entry point (mutate, mutate_root, map_root, try_map_root, new, try_new, finalize, rootless_mutate, stash / fetch) x target place, each family with accepted twins (9).  TLC checks NoEscape over all move sequences for the measured facts; a flipped fact yields a multi-move escape recipe that is written next to the offending probe.",
+   "note": "A model of the API's intended discipline, not of rustc; variance and auto-trait probes settle the structural clauses for all uses, the corpus is representative, not complete. rustc is the judge, so no false alarms; a rejected legitimate twin is a tool error.",
+   "technique": "rustc compile probes (variance, auto traits, escape corpus with twins) measure the facts + TLC model checking of Brand.tla over the measured facts"},
  "C13": {"engine": "writecap", "category": "exploration", "design_ref": "DESIGN.md 6 (C13), 7 (F3, F4)",
    "text": "WriteCap.tla is a capability model of src/barrier.rs: places with their owning GC objects (unique, shared, borrowed ownership), Write capabilities created and projected by moves (Gc::write, from_mut, from_static, assume, field!, as_deref per container kind, indexing, as_write, unlock), each guarded by a fact about the crate measured by a compile probe on a pointer-holding type.  TLC searches every move sequence (<= 5) over the measured facts for a capability on storage owned by an un-barriered marked object; recipes it finds are rendered into executable programs (one per non-owning container kind) which are compiled against the freshly built crate and run: VIOLATION iff the program compiles and loses a value that is still reachable.  The clauses the property names outright (no forged Write, no field! through a dereference, no unlock without Write, no pointers in plain Cell/RefCell) are decided by their probes directly.  On the pinned tree this finds F3/F4 (from_mut(&mut &T / Rc / Arc).as_deref()), now fixed.",
    "note": "A model of the API's capability discipline, not of rustc: decides 'no chain of <= 5 moves over these facts'; the universal claim over all safe programs rests on the probes being the right facts. rustc and the run-time observation are the judges, so no false alarms.",
@@ -91,6 +95,9 @@ m = {
    {"name": "sat", "path": "/verif/spec/Layout.tla /verif/spec/Builder.tla /verif/spec/Convert.tla (+ MC_* and *Trace modules) /verif/sat /verif/runner/engines_sat.py",
     "serves_properties": ["C17", "C18", "C19"],
     "kind_free_text": "finite spaces (layout grid, builder life cycles, conversion chains) enumerated and invariant-checked by TLC, executed element by element in the real crate, observations validated by TLC trace specifications"},
+   {"name": "brand", "path": "/verif/spec/Brand.tla /verif/runner/engines_sat.py (BRANDED, AUTO, ESCAPES, ESCAPE_TWINS)",
+    "serves_properties": ["C12"],
+    "kind_free_text": "place/move model in TLA+ whose guards are facts measured by rustc compile probes; adversarial probe corpus with accepted twins"},
    {"name": "writecap", "path": "/verif/spec/WriteCap.tla /verif/runner/engines_sat.py (WRITE_FACT_PROBES, EXPLOITS)",
     "serves_properties": ["C13"],
     "kind_free_text": "capability model in TLA+ whose atomic facts are measured by rustc compile probes; TLC searches move sequences; counterexample recipes are rendered to programs that rustc and a run-time check judge"},
